@@ -16,7 +16,7 @@ from .common import set_interrupts, COMPONENTS_BASE, run_sim, new_sim, finish_ou
 
 PID = "C14"
 LEVEL = "exploration"
-BUDGET = {"quick": 40000, "thorough": 1000000}
+BUDGET = {"quick": 250000, "thorough": 5000000}
 RULE = (
     "program runs: 0..4 entries, each one of {entered async CM, entered sync CM, pushed async CM, pushed sync "
     "CM, pushed async exit callable, pushed sync exit callable, callback with args (sync/async)} x exit "
